@@ -52,7 +52,7 @@ def run(tier, seed, model_ok):
             fc, fe = a[5:].split(' ')
             lines.append('%d HEXCHECK %s %s' % (i, fc, vlib.hx(img)))
             if fe != '-':      # the EEPROM file of the very large images is reported for every third length only
-                lines.append('%de HEXCHECK %s %s' % (i, fe, vlib.hx(bytes(b ^ 0x5a for b in img))))
+                lines.append('%de HEXCHECK %s %s' % (i, fe, vlib.hx(img[::-1])))
         else:
             vio.append({'what': 'writer did not produce one and the same file for code and eeprom / failed', 'image_length': len(img), 'impl': a[:100], 'expected': 'HEX file', 'key': 'write'})
     spec, _, _ = vlib.run_lines(E.SPEC, lines, mode=None)
@@ -63,7 +63,7 @@ def run(tier, seed, model_ok):
                         'image_head': vlib.hx(img[:32]), 'impl': impl[str(i)][:160], 'expected': 'MATCH', 'key': 'len%d' % len(img)})
     return {
         'evaluations': len(imgs), 'distinct_nontrivial': len({(len(i), i[:64]) for i in imgs}) - 1,
-        'rule': 'every image length 0..599, every length within 17 bytes of each multiple of 64 KiB up to the largest flash of the device table (%d bytes) + 64 KiB, plus 1 MiB -1/+0/+1/+17 (default device), contents random / zero / 0xff / counting (seeded); the code writer on the image and the EEPROM writer on the image xor 0x5a, two times out of three onto existing longer files; distinct = distinct (length, head) pairs, the empty image not counted as non-trivial' % maxflash,
+        'rule': 'every image length 0..599, every length within 17 bytes of each multiple of 64 KiB up to the largest flash of the device table (%d bytes) + 64 KiB, plus 1 MiB -1/+0/+1/+17 (default device), contents random / zero / 0xff / counting (seeded); the code writer on the image and the EEPROM writer on the reversed image, two times out of three onto existing longer files; distinct = distinct (length, head) pairs, the empty image not counted as non-trivial' % maxflash,
         'samples': [{'length': len(imgs[5]), 'bytes': vlib.hx(imgs[5])}, {'length': len(imgs[-1])}],
         'exhaustive': False,
         'distribution': {'lengths': len(ls), 'max_length': ls[-1], 'over_64k': sum(1 for l in ls if l > 65536)},
